@@ -146,6 +146,16 @@ func Build(specs []GenSpec) []gengo.Generator {
 			case "render", "defer-error", "kill-defer":
 				render(c, bh, name)
 			case "nothing", "alias-only", "alias-ignore-nothing":
+			case "defer-only":
+				// collect-then-emit: nothing is rendered here, everything in a deferred callback (registered once)
+				if s.typeCalls == 1 {
+					c.Defer(func(c gengo.Context) error {
+						pipeline.Current.Add(pipeline.Event{Kind: "defer-run", Pkg: pkg, Gen: gs.Name, Name: "defer-only"})
+						c.RenderT("// @g @salt saw (deferred) everything\nconst _ = \"@g|deferred|@salt\"\n\n",
+							snippet.Arg("g", snippet.Block(gs.Name)), snippet.Arg("salt", snippet.Block(bh.Salt)))
+						return nil
+					})
+				}
 			case "alias-error":
 				render(c, bh, name)
 			case "skip":
@@ -217,6 +227,8 @@ func (b Behav) RendersSomething(hasTypes, hasAliases, isAliasGen bool) bool {
 	switch b.Mode {
 	case "render", "ignore-something":
 		return hasTypes || (isAliasGen && hasAliases)
+	case "defer-only":
+		return hasTypes
 	case "alias-only":
 		return isAliasGen && hasAliases
 	}
